@@ -21,6 +21,8 @@ use verif_rt::atomic::AtomicUsize;
 use core::sync::atomic::Ordering::*;
 
 pub(crate) use self::list::{LocalNode, Node};
+#[cfg(arc_swap_verif)]
+pub(crate) use self::list::verif_hooks;
 use super::RefCnt;
 
 mod fast;
@@ -105,6 +107,8 @@ impl Debt {
                     // visible to whoever might acquire on this slot and can't leak below this.
                     // And we are the ones doing decrements anyway.
                     if slot.pay::<T>(ptr) {
+                        #[cfg(arc_swap_verif)]
+                        verif_rt::probe(verif_rt::probes::PAYALL_PAID_SLOT, false);
                         // Pre-pay one more, for another future slot
                         T::inc(&val);
                     }
